@@ -363,7 +363,12 @@ Linear_System<Row>::set_space_dimension_no_ok(dimension_type space_dim) {
 template <typename Row>
 inline void
 Linear_System<Row>::set_space_dimension(dimension_type space_dim) {
+  const bool shrinking = (space_dim < space_dimension_);
   set_space_dimension_no_ok(space_dim);
+  // The relative order of the rows depends on the removed coefficients too.
+  if (shrinking && sorted && !check_sorted()) {
+    sorted = false;
+  }
   PPL_ASSERT(OK());
 }
 
